@@ -229,6 +229,12 @@ def model_cmd(engine):
     return [BXHMODEL, engine]
 
 
+def compared(lines):
+    """The part of each implementation observation that is compared with the model
+    (everything after ' ## ' is implementation-only information for the monitors)."""
+    return [x.split(" ## ")[0] for x in lines]
+
+
 def first_diff(a, b):
     for i in range(max(len(a), len(b))):
         x = a[i] if i < len(a) else "<missing>"
@@ -239,8 +245,19 @@ def first_diff(a, b):
 
 
 def shrink(engine, hist, still_fails, budget=150):
-    """Delta debugging on the op list; `still_fails(ops)` re-runs both sides."""
+    """Delta debugging on the op list; `still_fails(ops)` re-runs both sides.
+    A leading `world`/`new`/`open` op (engine set-up) is never removed."""
+    head = []
     ops = list(hist.ops)
+    if ops and ops[0].split(" ")[0] in ("world", "new", "open"):
+        head, ops = ops[:1], ops[1:]
+        inner = still_fails
+        still_fails = lambda cand: inner(head + cand)  # noqa: E731
+    ops = _shrink(ops, still_fails, budget)
+    return head + ops
+
+
+def _shrink(ops, still_fails, budget):
     n = 2
     calls = 0
     while len(ops) >= 2 and calls < budget:
